@@ -131,6 +131,21 @@ static bool fd_in_set(int fd, const int *fd_set, size_t size)
   return false;
 }
 
+// If `handle` has the number of one of the standard streams, duplicates it to a
+// file descriptor above the standard streams (with the close-on-exec flag set)
+// and returns the duplicate. Otherwise, returns `handle` itself. Returns a
+// negative error code if duplicating fails.
+static int handle_above_standard_streams(int handle)
+{
+  if (handle < 0 || handle > STDERR_FILENO) {
+    return handle;
+  }
+
+  int r = fcntl(handle, F_DUPFD_CLOEXEC, STDERR_FILENO + 1);
+
+  return r < 0 ? -errno : r;
+}
+
 static pid_t process_fork(const int *except, size_t num_except)
 {
   struct {
@@ -370,6 +385,42 @@ int process_start(pid_t *process,
 
     int redirect[] = { options.handle.in, options.handle.out,
                        options.handle.err };
+
+    // The standard streams are redirected one after the other, so a handle
+    // that has the number of a standard stream other than its own (because
+    // the standard streams of the parent were closed when the handle was
+    // created or because the user passed us such a handle) would be
+    // overwritten before we get to use it. Move these handles out of the way,
+    // starting with the error pipe we report failures on.
+
+    pipe.read = pipe_destroy(pipe.read);
+
+    r = handle_above_standard_streams(pipe.write);
+    if (r < 0) {
+      goto child;
+    }
+
+    pipe.write = r;
+
+    r = handle_above_standard_streams(options.handle.exit);
+    if (r < 0) {
+      goto child;
+    }
+
+    options.handle.exit = r;
+
+    for (int i = 0; i < (int) ARRAY_SIZE(redirect); i++) {
+      if (redirect[i] == i) {
+        continue;
+      }
+
+      r = handle_above_standard_streams(redirect[i]);
+      if (r < 0) {
+        goto child;
+      }
+
+      redirect[i] = r;
+    }
 
     for (int i = 0; i < (int) ARRAY_SIZE(redirect); i++) {
       // `i` corresponds to the standard stream we need to redirect.
